@@ -63,11 +63,36 @@ theorem binom_not_val_imp_large (n k : Nat) (hk : k ≤ n)
   rw [this] at h
   rcases h with h | h <;> cases h
 
-/-- Any value that is returned is the exact one (for `k ≤ n`, without assuming anything about its size). -/
+/-- Any value that is returned is the exact one (for `k ≤ n`), when `C(n,k)` is known to fit. -/
 theorem binom_val_imp_exact_of_fits (n k c : Nat) (hk : k ≤ n) (hfit : n.choose k < 2 ^ 64)
     (h : binomCoeff n k = .val c) : c = n.choose k := by
   rw [binom_exact n k hk hfit] at h
   cases h; rfl
+
+/-- **No wrong value, whatever the size.** For `k ≤ n`, if the model returns a value at all, it is `C(n,k)` and it fits
+in 64 bits: a coefficient that does not fit is always stopped by the guard or by one of the overflow checks. -/
+theorem binom_val_imp_exact (n k c : Nat) (hk : k ≤ n) (h : binomCoeff n k = .val c) :
+    c = n.choose k ∧ n.choose k < 2 ^ 64 := by
+  unfold binomCoeff at h
+  rw [if_neg (by omega)] at h
+  have h1 : n.choose 0 < 2 ^ 64 := by rw [Nat.choose_zero_right]; norm_num
+  by_cases hh : k > n - k
+  · simp only [hh, if_true] at h
+    have h' : binomGo n (n - k) (n - k) (0 + 1) (n.choose 0) = .val c := by rw [Nat.choose_zero_right]; exact h
+    have e := binomGo_val_imp n (n - k) (by omega) (n - k) 0 c (by omega) h'
+    have f := binomGo_val_fits n (n - k) (by omega) (n - k) 0 c (by omega) h1 h'
+    rw [Nat.choose_symm hk] at e
+    exact ⟨e, e ▸ f⟩
+  · simp only [hh, if_false] at h
+    have h' : binomGo n k k (0 + 1) (n.choose 0) = .val c := by rw [Nat.choose_zero_right]; exact h
+    have e := binomGo_val_imp n k hk k 0 c (by omega) h'
+    have f := binomGo_val_fits n k hk k 0 c (by omega) h1 h'
+    exact ⟨e, e ▸ f⟩
+
+/-- The three outcomes are decided by the size of `C(n,k)` alone: a value iff it fits. -/
+theorem binom_val_iff_fits (n k : Nat) (hk : k ≤ n) :
+    (∃ c, binomCoeff n k = .val c) ↔ n.choose k < 2 ^ 64 :=
+  ⟨fun ⟨c, h⟩ => (binom_val_imp_exact n k c hk h).2, fun h => ⟨_, binom_exact n k hk h⟩⟩
 
 /-- Symmetry. -/
 theorem binom_symm (n k : Nat) (hk : k ≤ n) (hfit : n.choose k < 2 ^ 64) :
@@ -153,12 +178,53 @@ theorem logit_rejects (p : ℝ) (h : p < 0 ∨ 1 < p) : logit p = none := by
 
 example : logit (2 : ℝ) = none := logit_rejects 2 (Or.inr (by norm_num))
 
-theorem logit_real (p : ℝ) (h0 : 0 ≤ p) (h1 : p ≤ 1) : logit p = some (Real.log (p / (1 - p))) := by
-  unfold logit; rw [if_pos ⟨h0, h1⟩]; rfl
+/-- On the open interval the model's value is the real logit.  (Stated for `0 < p < 1` only: at `p = 0` and `p = 1` the
+model is defined as well — `logit_defined_iff` — but over `ℝ` its value there is the junk `log 0 = 0`, `1/0 = 0` of the
+totalised real functions, whereas the code returns `ln(0/1) = -inf` and `ln(1/0) = +inf`; those two are the one-sided
+limits, `logit_tendsto_zero` / `logit_tendsto_one`, and the oracle checks them exactly.) -/
+theorem logit_real (p : ℝ) (h0 : 0 < p) (h1 : p < 1) : logit p = some (Real.log (p / (1 - p))) := by
+  unfold logit; rw [if_pos ⟨h0.le, h1.le⟩]; rfl
+
+/-- At the end points the model returns a value (no panic), like the code. -/
+theorem logit_endpoints_defined : (logit (0 : ℝ)).isSome ∧ (logit (1 : ℝ)).isSome := by
+  constructor <;> rw [logit_defined_iff] <;> norm_num
+
+/-- `ln(p/(1-p)) → -∞` as `p → 0+`: the code's `logit(0) = -inf` is the one-sided limit. -/
+theorem logit_tendsto_zero :
+    Filter.Tendsto (fun p : ℝ => Real.log (p / (1 - p))) (nhdsWithin 0 (Set.Ioi 0)) Filter.atBot := by
+  apply Real.tendsto_log_nhdsGT_zero.comp
+  apply tendsto_nhdsWithin_of_tendsto_nhds_of_eventually_within
+  · have : Filter.Tendsto (fun p : ℝ => p / (1 - p)) (nhds 0) (nhds (0 / (1 - 0))) :=
+      (continuous_id.tendsto 0).div ((continuous_const.sub continuous_id).tendsto 0) (by norm_num)
+    simpa using this.mono_left nhdsWithin_le_nhds
+  · have h1 : ∀ᶠ p : ℝ in nhdsWithin 0 (Set.Ioi 0), p < 1 :=
+      (eventually_lt_nhds (by norm_num : (0 : ℝ) < 1)).filter_mono nhdsWithin_le_nhds
+    filter_upwards [self_mem_nhdsWithin, h1] with p hp hp1
+    have hp0 : 0 < p := hp
+    exact Set.mem_Ioi.2 (div_pos hp0 (by linarith))
+
+/-- `ln(p/(1-p)) → +∞` as `p → 1-`: the code's `logit(1) = +inf` is the one-sided limit. -/
+theorem logit_tendsto_one :
+    Filter.Tendsto (fun p : ℝ => Real.log (p / (1 - p))) (nhdsWithin 1 (Set.Iio 1)) Filter.atTop := by
+  apply Real.tendsto_log_atTop.comp
+  -- p / (1 - p) = p * (1 - p)⁻¹ with p → 1 > 0 and (1 - p)⁻¹ → +∞
+  have hinv : Filter.Tendsto (fun p : ℝ => (1 - p)⁻¹) (nhdsWithin 1 (Set.Iio 1)) Filter.atTop := by
+    apply Filter.Tendsto.inv_tendsto_nhdsGT_zero
+    apply tendsto_nhdsWithin_of_tendsto_nhds_of_eventually_within
+    · have : Filter.Tendsto (fun p : ℝ => 1 - p) (nhds 1) (nhds (1 - 1)) :=
+        (continuous_const.sub continuous_id).tendsto 1
+      simpa using this.mono_left nhdsWithin_le_nhds
+    · filter_upwards [self_mem_nhdsWithin] with p hp
+      have hp1 : p < 1 := hp
+      exact Set.mem_Ioi.2 (sub_pos.2 hp1)
+  have hp : Filter.Tendsto (fun p : ℝ => p) (nhdsWithin 1 (Set.Iio 1)) (nhds 1) :=
+    (continuous_id.tendsto 1).mono_left nhdsWithin_le_nhds
+  have := Filter.Tendsto.pos_mul_atTop (by norm_num : (0 : ℝ) < 1) hp hinv
+  simpa [div_eq_mul_inv] using this
 
 /-- `logit (logistic x) = x` -/
 theorem logit_logistic (x : ℝ) : logit (logistic x) = some x := by
-  rw [logit_real _ (logistic_pos x).le (logistic_lt_one x).le, logistic_real]
+  rw [logit_real _ (logistic_pos x) (logistic_lt_one x), logistic_real]
   have he := Real.exp_pos (-x)
   have h : (1 / (1 + Real.exp (-x))) / (1 - 1 / (1 + Real.exp (-x))) = Real.exp x := by
     rw [Real.exp_neg]
@@ -170,7 +236,7 @@ theorem logit_logistic (x : ℝ) : logit (logistic x) = some x := by
 /-- `logistic (logit p) = p` on `(0,1)` -/
 theorem logistic_logit (p : ℝ) (h0 : 0 < p) (h1 : p < 1) :
     ∃ q, logit p = some q ∧ logistic q = p := by
-  refine ⟨Real.log (p / (1 - p)), logit_real p h0.le h1.le, ?_⟩
+  refine ⟨Real.log (p / (1 - p)), logit_real p h0 h1, ?_⟩
   have hq : 0 < p / (1 - p) := div_pos h0 (by linarith)
   rw [logistic_real, Real.exp_neg, Real.exp_log hq]
   have : (1 - p) ≠ 0 := by linarith
